@@ -128,7 +128,16 @@ pub fn run(o: &Opts) -> Report {
     for cfg_kind in configs {
         let phys = cfg_kind.contains("phys");
         let reps = if phys { (n_scen / 2).max(2) } else { n_scen };
-        for si in 0..reps {
+        // curated scenarios (run on every tier): a fixed tree with nested NON-EMPTY directories and
+        // the operations that iterate listings, so that every call position of a traversal — the
+        // listing of each level, the metadata probe of each entry — is hit by the sweep over k
+        let mk_op = |name: &'static str, path: &str, dest: Option<&str>| Op { name, path: path.to_string(), bytes: None, dest: dest.map(|d| d.to_string()), time: None };
+        let mut curated: Vec<Op> = vec![];
+        if matches!(cfg_kind, "fault(mem)" | "alt(fault(mem))" | "ovl(fault(mem),fault(mem))") || (o.thorough() && !phys) {
+            curated = vec![mk_op("walk", "", None), mk_op("copy_dir", "/a", Some("/c/d")), mk_op("move_dir", "/a", Some("/c/d")), mk_op("remove_dir_all", "/a", None), mk_op("read_dir", "/a", None), mk_op("remove_dir", "/a/a", None)];
+        }
+        for si in 0..(reps + curated.len()) {
+            let forced: Option<Op> = if si >= reps { Some(curated[si - reps].clone()) } else { None };
             let (cfg_lines, target, lowers, upper) = build(cfg_kind, &mut rng);
             // prefix history generated on the fly, fault-free
             world.reset();
@@ -137,7 +146,20 @@ pub fn run(o: &Opts) -> Report {
                 world.exec(l);
             }
             let cfg = Cfg { name: cfg_kind.to_string(), lines: vec![], target, spec: 0, overlay_upper: upper, kind: cfg_kind.to_string() };
-            let n_prefix = 2 + rng.below(10);
+            let n_prefix = if forced.is_some() { 0 } else { 2 + rng.below(10) };
+            if forced.is_some() {
+                // fixed tree (calls that collide with the generated layer contents simply fail)
+                for l in [
+                    format!("op {} remove_dir_all {}", target, enc_str("/c/d")),
+                    format!("op {} remove_file {}", target, enc_str("/c/d")),
+                    format!("op {} create_dir_all {}", target, enc_str("/a/a")),
+                    format!("op {} write {} {}", target, enc_str("/a/a/b"), enc_bytes(b"deep")),
+                    format!("op {} create_dir {}", target, enc_str("/c")),
+                ] {
+                    world.exec(&l);
+                    setup.push(l);
+                }
+            }
             let mut snap = parse_snap(&world.exec(&format!("snap {} {}", target, uni)));
             for _ in 0..n_prefix {
                 let op = gen_op(&mut rng, &ts, &snap, &cfg);
@@ -149,13 +171,29 @@ pub fn run(o: &Opts) -> Report {
             // the operation under fault: biased towards composites and adapters' multi-call paths
             let mut op = gen_op(&mut rng, &ts, &snap, &cfg);
             let want_composite = si % 4 != 0;
-            for _ in 0..80 {
+            if let Some(f) = &forced {
+                op = f.clone();
+            }
+            for _ in 0..(if forced.is_some() { 0 } else { 80 }) {
                 let composite = matches!(op.name, "create_dir_all" | "remove_dir_all" | "copy_file" | "move_file" | "copy_dir" | "move_dir" | "walk" | "read_to_string" | "read_dir" | "remove_dir" | "read");
                 let mutator = matches!(op.name, "append" | "write" | "remove_dir" | "remove_file" | "create_dir");
                 if (want_composite && composite) || (!want_composite && (mutator || composite)) {
                     break;
                 }
                 op = gen_op(&mut rng, &ts, &snap, &cfg);
+            }
+            // transfers: the snapshot also covers the re-rooted image of the source subtree at the
+            // destination, so that a partial copy below the destination is visible
+            let mut uni = uni.clone();
+            if let Some(d) = &op.dest {
+                if matches!(op.name, "copy_dir" | "move_dir") {
+                    for u in universe().iter() {
+                        if u.len() > op.path.len() && u.starts_with(&format!("{}/", op.path)) {
+                            uni.push(' ');
+                            uni.push_str(&enc_str(&format!("{}{}", d, &u[op.path.len()..])));
+                        }
+                    }
+                }
             }
             // fault-free run: number of calls and full-effect snapshot
             world.exec("setfault none");
@@ -255,8 +293,12 @@ pub fn run(o: &Opts) -> Report {
         }
         if fired && ok && !yields_err && p.opname != "walk" {
             // success although a call failed: only acceptable if the effect is complete (checked
-            // above) AND the returned value is the fault-free one
+            // above) AND the returned value is the fault-free one (copy_dir's count)
             rep.count("success-by-another-route");
+            if p.free_res.starts_with("ok") && *res != p.free_res && !observer {
+                rep.fail(mk("prop", format!("{}:{}:success-with-wrong-value", class, p.opname), format!("an underlying call failed, the operation reported success with {} while the fault-free value is {}", res, p.free_res), res, &p.free_res));
+                continue;
+            }
         }
         for (j, li) in p.lower_i.iter().enumerate() {
             if impl_outs[*li] != p.base_lower[j] {
